@@ -199,8 +199,26 @@ def run_history_impl(w, rng, ops):
             keep_mtime(cf, lambda: open(cf, "wb").write(new))
         elif name == "foreign" and os.path.exists(cf):
             data = open(cf, "rb").read()
-            rest = data.split(b"\n", 1)[1] if b"\n" in data else b""  # (an earlier `damage` may have cut the header line)
-            keep_mtime(cf, lambda: open(cf, "wb").write(b"0.0.0-other\n" + rest))
+            # another xonsh, another Python — or the SAME Python x.y.z at another release level / serial (3.12.1.candidate.1 vs
+            # 3.12.1.final.0): every field of both stamps counts
+            lines = data.split(b"\n", 2)
+            kind = rng.random()
+            if len(lines) < 3 or kind < 0.34:
+                rest = data.split(b"\n", 1)[1] if b"\n" in data else b""  # (an earlier `damage` may have cut the header line)
+                new = b"0.0.0-other\n" + rest
+            elif kind < 0.5:
+                new = lines[0] + b"\n" + b"9" + lines[1][1:] + b"\n" + lines[2]
+            else:
+                py = lines[1].split(b".")
+                if len(py) >= 5:
+                    if rng.random() < 0.5:
+                        py[3] = b"candidate" if py[3] != b"candidate" else b"final"
+                    else:
+                        py[4] = b"1" if py[4] != b"1" else b"2"
+                    new = lines[0] + b"\n" + b".".join(py) + b"\n" + lines[2]
+                else:
+                    new = b"0.0.0-other\n" + lines[1] + b"\n" + lines[2]
+            keep_mtime(cf, lambda: open(cf, "wb").write(new))
         elif name == "removeCache" and os.path.exists(cf):
             os.unlink(cf)
         out.append((res, os.path.exists(cf)))
